@@ -29,7 +29,7 @@ ASSUMPTIONS = ["value comparison tolerance 1e-9*max(1,|ref|,largest intermediate
                "within 1e-9 of a branch cut/pole, or ill-conditioned under a 1e-12 perturbation are discarded",
                "exact zeros in '||' and zero bases of '^' are discarded (C15/C02 territory)",
                "tabs/newlines are placed between tokens only; number+suffix and '||' count as single tokens"]
-REQUIRED = {'distinguishes/pow-left': 500, 'distinguishes/neg-tight': 500, 'distinguishes/par-loose': 500,
+REQUIRED = {'pole/judged': 10, 'distinguishes/pow-left': 500, 'distinguishes/neg-tight': 500, 'distinguishes/par-loose': 500,
             'distinguishes/par-tight': 200, 'distinguishes/sum-right': 500, 'distinguishes/prod-right': 500,
             'distinguishes/exp-sign-local': 100, 'distinguishes/flat-prec': 500,
             'tree/suffix': 100, 'tree/spaces': 300, 'tree/tabs-newlines': 300, 'tree/emdash': 100,
@@ -213,6 +213,9 @@ def items_flat(tier):
     # the sequences named in the property text, verbatim
     for s in sorted(NAMED):
         yield {'named': s}
+    # reciprocals that cancel exactly: 1/(1/a + 1/b) has no value - a division-by-zero error, never a number
+    for s in POLES:
+        yield {'pole': s}
 
 
 NAMED_TOKENS = {
@@ -231,7 +234,27 @@ def _safe_ref(tokens, variant):
     return v
 
 
+POLES = ['1||-1', '2||-2', 'y||-y', 'z||-z', '2||-4||-4', '-3||3', '1.5||-1.5', '(2*3)||-6', '4||-2^2', 'w||1.5',
+         '1/(2-2)', '3/(y-1.25)', '0^-1', '(7-7)^-2']
+
+
+def judge_pole(spec, rec):
+    s = spec['pole']
+    kind, out = call(evaluator, s, FLAT_VARS, {}, {})
+    rec.calls()
+    rec.cls('pole/judged')
+    rec.nontrivial()
+    if kind == 'ok':
+        raise Violation('flat/pole-valued', '%r has no value (division by zero) but evaluated to %r' % (s, out[0]),
+                        string=s)
+    if not isinstance(out, MITxError):
+        raise out
+    return {'string': s, 'error': type(out).__name__}
+
+
 def judge_flat(spec, rec):
+    if 'pole' in spec:
+        return judge_pole(spec, rec)
     if 'named' in spec:
         s = spec['named']
         toks = NAMED_TOKENS[s]
@@ -306,8 +329,17 @@ def strat_trees(tier):
     }))
 
 
+def fresh_funcs():
+    """The function table with NEWLY CREATED user-function objects of different arities (authors' scopes are built
+    per problem; anything the evaluator remembers about a function object must not outlive it)."""
+    fs = dict(_FG.default_functions)
+    fs.update({'f': lambda x: x * x + 1, 'g': lambda x, y: x * y - 1, "f'": lambda x: 2 * x,
+               'sq_2': lambda x: x * x})
+    return fs
+
+
 def lib_eval(s, env, suffixes):
-    return call(evaluator, s, env, LIB_FUNCS, suffixes)
+    return call(evaluator, s, env, fresh_funcs(), suffixes)
 
 
 def judge_tree(spec, rec):
